@@ -39,7 +39,9 @@ MODELLED_NOT_VERIFIED = [
     "to the model's by the bridge_* theorems; the loops themselves (iteration order, which nodes are visited) stay hand-modelled",
     "C17: Node.distance_from_root includes the seed node's own edge length (the walk up the parent chain does not stop below the seed); "
     "modelled as the code does it (distance_from_root_spec); judged by the oracle only on trees whose seed has no / zero length. "
-    "Node.distance_from_tip caches `_distance_from_tip` on the children and never invalidates it: only fresh Tree objects are generated",
+    "Node.distance_from_tip: the model is the cache-free recomputation on the tree as it is (tipMax); Tree objects with a history "
+    "(an earlier distance_from_tip call, then edits) are generated and judged against the current tree - the unrepaired code read a "
+    "never-invalidated `_distance_from_tip` cache there (fixes/C17-distance-from-tip-stale-cache.patch)",
     "C17: floating point is not modelled: comparison is exact on dyadic inputs (all sums/differences exact in binary64) and within 1e-9 "
     "where the code divides (B1, N_bar, normalisations, treeness, gamma) or the input is not dyadic (default precision 1e-5 sweep; the "
     "2^-k margin keeps exact and float verdicts equal)",
@@ -71,7 +73,8 @@ EXPLANATION = ("Theorems (Props/C17.lean) about the definitions drv_c17 runs, nu
                "ultrametric positive-length tree with >= 3 leaves, n = number of leaves, T > 0), gamma_eq_def (end to end incl. the lineage "
                "reading of the intervals, conditional on success = gamma_succeeds; gamma_eq_def_partial kept), stats_perm_invariant (child order for every statistic incl. gamma via "
                "gamma_perm_invariant; ..._partial kept). List forms: node_ages_sorted_spec (node_ages/internal_node_ages = sorted permutation of what "
-               "calc_node_ages returns; same refusals), coal_intervals_spec (running sums of the intervals give the sorted ages back; differences "
+               "calc_node_ages returns; same refusals), node_ages_sorted_any (every age assigned under ANY configuration, forcing included, is well-formed, so the "
+               "sorted lists are ascending under forcing too), coal_intervals_spec (running sums of the intervals give the sorted ages back; differences "
                ">= 0), root_distance_list_spec (returned list = root path lengths in pre-order, leaves only or all; max_distance_from_root = "
                "the max of minmax), distance_from_tip_spec (largest tip distance), distance_from_root_spec (root path length + the seed's own "
                "edge length). Tie A: bridge_b1, bridge_colless_loop, bridge_colless_norms, bridge_norm_tables, bridge_euler, bridge_sackin, "
@@ -251,6 +254,9 @@ def apply_history(D, tree, ids, steps):
                     tree.resolve_node_ages()
                 elif kind == "intervals":
                     tree.coalescence_intervals()
+                elif kind == "tipdist":
+                    # Node.distance_from_tip leaves a `_distance_from_tip` attribute on every node below the one asked
+                    (tree.seed_node if st[1] is None else nodes[st[1]]).distance_from_tip()
                 elif kind == "datefn":
                     table = {id(nd): (None if a is None else float(F(a))) for nd, a in zip(nodes, st[1])}
                     tree.calc_node_ages(ultrametricity_precision=False, set_node_age_fn=lambda nd: table.get(id(nd)))
@@ -592,14 +598,28 @@ def op_lists(ctx, D, case):
     Node.distance_from_root / distance_from_tip (fresh Tree objects)"""
     from dendropy.calculate import treemeasure as tm
     toks = case["tree"]
-    T_ = " ".join(toks)
     out = []
+    hist = case.get("history")
 
     def fresh():
-        tree, ids = mk(D, toks)
+        # with a history: the SAME sequence of earlier calls / edits is replayed on every fresh object (it is deterministic), so
+        # each entry point is asked of a Tree that has lived: stale age / depth / root_distance / _distance_from_tip attributes
+        tree, ids = mk(D, case["tree"])
+        if hist:
+            ids = apply_history(D, tree, ids, hist)
         return tree, Info(tree, ids)
 
-    tree, info = fresh()
+    try:
+        tree, info = fresh()
+    except KeyError:
+        raise
+    except Exception:   # noqa   an edit of the history that the library refuses on this tree: no case
+        if hist:
+            return []
+        raise
+    if hist:
+        toks = tu.encode_tree(tree, info.ids)[0]      # the model (no memory) sees the tree as it is after its history
+    T_ = " ".join(toks)
     ltr = "lenient" if info.nonroot_none else None
     pre = []
     stack = [info.root]
@@ -1289,6 +1309,8 @@ def gen_history(rng, toks):
 
     def computation():
         r = rng.random()
+        if rng.random() < 0.15:
+            return ["tipdist", None if rng.random() < 0.6 or not internal else rng.choice(internal)]
         if r < 0.3:
             return ["ages", rng.choice(["D", "N", "0", "100"]), rng.choice(["calc", "node_ages", "internal_node_ages"])]
         if r < 0.4:
@@ -1360,6 +1382,11 @@ def tree_battery(ctx, D, rng, toks, kind, pending):
     case = {"op": "lists", "tree": toks}
     ctx.case(["lists", toks], nontriv, sample=case, kind="lists-" + kind)
     do_case(ctx, D, case, pending)
+    if rng.random() < 0.5:
+        hist = gen_history(rng, toks)
+        case = {"op": "lists", "tree": toks, "history": hist}
+        ctx.case(["lists-history", toks, hist], True, sample=case, kind="lists-history")
+        do_case(ctx, D, case, pending)
     # depths / root distances / resolved ages
     case = {"op": "depths", "tree": toks, "leaf_only": rng.random() < 0.5}
     ctx.case(["depths", toks], nontriv, kind="depths")
@@ -1412,6 +1439,19 @@ def run(ctx):
               (tokens_from([[], []], [None, None, None]), "none"), (tokens_from([[[], []], []], [F(1), F(0), F(0), F(0), F(0)]), "zero")]
     for toks, kind in corner:
         tree_battery(ctx, D, rng, toks, kind, pending)
+    # polytomies: EVERY non-first child is compared with the first (a deviating middle / last / second child, at the root and below)
+    for shape, lens in (([[], [], []], [None, 1, 3, 1]), ([[], [], []], [None, 1, 1, 3]), ([[], [], [], []], [None, 1, 1, 3, 1]),
+                        ([[], [], [], []], [None, 2, 1, 2, 2]), ([[[], [], []], []], [None, 1, 1, 3, 1, 2]),
+                        ([[], [[], [], [], []]], [None, 3, 1, 2, 2, 4, 2]), ([[], [], [], [], []], [None, 1, 1, 1, 2, 1])):
+        ptoks = tokens_from(shape, [None if x is None else F(x) for x in lens])
+        for prec in ("D", "0", "1", "3/2", "2", "4"):
+            for via in ("calc", "node_ages", "internal_node_ages"):
+                case = dict(age_case(rng, ptoks, prec), via=via)
+                ctx.case(["polytomy", ptoks, prec, via], True, sample=case, kind="ages-polytomy")
+                do_case(ctx, D, case, pending)
+        case = {"op": "stats", "tree": ptoks, "gprec": "1"}
+        ctx.case(["stats-polytomy", ptoks], True, kind="stats-polytomy")
+        do_case(ctx, D, case, pending)
     # time scale x precision: heights 2^-20 .. 2^30, precisions 2^-50 .. 2^10 / default / 0 / disabled, one edge off by f x precision
     scale_sweep(ctx, D, rng, pending, ctx.pick(60, 1500))
     for it in range(ntrees):
